@@ -67,21 +67,14 @@ RECURSIVE PathsFrom(_, _)
 PathsFrom(o, d) ==
   {<<>>} \cup (IF d = 0 \/ Kind[o] # "dir" THEN {}
                ELSE UNION {{<<l.name>> \o p : p \in PathsFrom(l.child, d - 1)} : l \in {l2 \in Links : l2.parent = o}})
-AllPaths == TLCEval([o \in Objs |-> TLCEval(PathsFrom(o, 4))])
 \* a directory can be listed only with read authority; what is reached below it carries the minimum along the path
-\* (TLCEval: evaluate the tables once instead of at every use)
-GrantOf(cap) ==
-  TLCEval([o \in Objs |->
-     LET lv == {"none"} \cup {LET r == Resolve(cap, p) IN
-                              IF r.obj # o THEN "none"
-                              ELSE IF p # <<>> /\ Rank[r.pauth] < Rank["read"] THEN "none" ELSE r.auth
-                              : p \in AllPaths[cap.obj]}
-     IN CHOOSE a \in lv : \A b \in lv : Rank[a] >= Rank[b]])
-Auths == {"none", "verify", "read", "write"}
-GrantTable == TLCEval([o \in Objs |-> TLCEval([a \in Auths |-> GrantOf(Cap(o, a))])])
-Grant(cap) == GrantTable[cap.obj][cap.auth]
-GrantAll(caps) == [o \in Objs |-> LET lv == {"none"} \cup {Grant(c)[o] : c \in caps}
-                                  IN CHOOSE a \in lv : \A b \in lv : Rank[a] >= Rank[b]]
+Reach(cap) ==
+  {LET r == Resolve(cap, p) IN
+   <<r.obj, IF p # <<>> /\ Rank[r.pauth] < Rank["read"] THEN "none" ELSE r.auth>> : p \in PathsFrom(cap.obj, 4)}
+GrantAll(caps) ==
+  LET R == UNION {Reach(cp) : cp \in caps} IN
+  [o \in Objs |-> LET lv == {"none"} \cup {x[2] : x \in {y \in R : y[1] = o}}
+                  IN CHOOSE a \in lv : \A b \in lv : Rank[a] >= Rank[b]]
 
 (* ---- requests ------------------------------------------------------------------------------------------ *)
 Starts == {Cap("ROOT", "write"), Cap("ROOT", "read"), Cap("ROOT", "verify"),
